@@ -434,6 +434,50 @@ func (e *engine) instr(fn *ssa.Function, fobj *types.Func, in ssa.Instruction) {
 				e.res.Exempt = appendOnce(e.res.Exempt, "comparison of a position with the literal 0 (NilPos sentinel)")
 				return
 			}
+			// the same test written on the converted value: int(pos) == 0
+			if x.Op == token.EQL || x.Op == token.NEQ {
+				fromPos := func(v ssa.Value) bool {
+					for {
+						switch c := v.(type) {
+						case *ssa.Convert:
+							if e.isPosType(c.X.Type()) {
+								return true
+							}
+							v = c.X
+						case *ssa.ChangeType:
+							if e.isPosType(c.X.Type()) {
+								return true
+							}
+							v = c.X
+						case *ssa.UnOp:
+							// a local variable (spilled because a closure captures it) holding only converted positions
+							al, ok := c.X.(*ssa.Alloc)
+							if !ok || c.Op != token.MUL || al.Referrers() == nil {
+								return false
+							}
+							var stored ssa.Value
+							for _, r := range *al.Referrers() {
+								if st, ok := r.(*ssa.Store); ok && st.Addr == ssa.Value(al) {
+									if stored != nil {
+										return false
+									}
+									stored = st.Val
+								}
+							}
+							if stored == nil {
+								return false
+							}
+							v = stored
+						default:
+							return false
+						}
+					}
+				}
+				if isZeroConst(x.X) && fromPos(x.Y) || isZeroConst(x.Y) && fromPos(x.X) {
+					e.res.Exempt = appendOnce(e.res.Exempt, "equality test of a converted position with the literal 0 (NilPos sentinel)")
+					return
+				}
+			}
 			e.eq(fn, in, "comparison "+x.X.Name()+" "+x.Op.String()+" "+x.Y.Name()+": both sides must move together", e.operand(fn, in, x.X), e.operand(fn, in, x.Y))
 		default:
 			if isInt(x.Type()) {
